@@ -21,7 +21,7 @@ class Cfg:
                async_=False, with_=False, finally_=False, match=False,
                decorators=False, star=False, global_=False, walrus=False,
                errors=0, annotations=0.0, classes=True, functions=True,
-               try_=True, comprehensions=True, lambdas=True):
+               try_=True, comprehensions=True, lambdas=True, nested=False):
     self.n_stmts = n_stmts
     self.loops = loops
     self.generators = generators
@@ -40,12 +40,13 @@ class Cfg:
     self.try_ = try_
     self.comprehensions = comprehensions
     self.lambdas = lambdas
+    self.nested = nested
 
   @classmethod
   def everything(cls, **kw):
     d = dict(loops=True, generators=True, async_=True, with_=True,
              finally_=True, match=True, decorators=True, star=True,
-             global_=True, walrus=True)
+             global_=True, walrus=True, nested=True)
     d.update(kw)
     return cls(**d)
 
@@ -125,6 +126,7 @@ class G:
     self.counter = 0
     self.needs_typing = set()
     self.annotated = set()
+    self.uses_T = False
 
   # ---- small helpers
   def i(self, lo, hi):
@@ -660,6 +662,8 @@ class G:
         lines += ["  @classmethod", "  def make(cls):",
                   "    return %s" % self.expr({}, "int", 1)]
         info["methods"]["make"] = ([], "int")
+    if self.cfg.nested and self.chance(25):
+      lines += self.nested_class(indent="  ", depth=1)
     if self.chance(30):
       # special methods (some are implicitly class/static methods)
       self.features.add("dunder")
@@ -669,6 +673,55 @@ class G:
     if len(lines) == 1:
       lines.append("  pass")
     self.classes.append(info)
+    return lines
+
+  def nested_class(self, indent, depth):
+    """A class nested in a class (optionally generic, optionally one more
+    level); its name may coincide with a module-level class."""
+    self.features.add("nested-class")
+    if self.classes and self.chance(25):
+      name = self.pick(self.classes)["name"]      # shadows a module-level class
+      self.features.add("nested-class-shadows-module-class")
+    else:
+      name = self.fresh("N")
+    generic = self.chance(35)
+    if generic:
+      self.features.add("generic-class")
+      self.needs_typing.update(["Generic", "TypeVar"])
+      self.uses_T = True
+    lines = ["%sclass %s%s:" % (indent, name, "(Generic[T])" if generic else "")]
+    ind = indent + "  "
+    lines.append("%sz = %s" % (ind, self.expr({}, self.some_kind(0, False), 1)))
+    if self.chance(70):
+      ann = ": T" if generic and self.chance(60) else ""
+      lines += ["%sdef __init__(self, q%s):" % (ind, ann),
+                "%s  self.q = q" % ind]
+    if self.chance(60):
+      ret = " -> T" if generic and self.chance(50) else ""
+      lines += ["%sdef get(self)%s:" % (ind, ret),
+                "%s  return self.z" % ind if not ret else "%s  return self.q" % ind]
+      if ret and "self.q = q" not in "\n".join(lines):
+        lines[-1] = "%s  return None" % ind
+    if depth < 2 and self.chance(30):
+      lines += self.nested_class(ind, depth + 1)
+    return lines
+
+  def generic_class_def(self, env):
+    """A top-level generic class and a use of it."""
+    self.features.add("generic-class")
+    self.needs_typing.update(["Generic", "TypeVar"])
+    self.uses_T = True
+    name = self.fresh("G")
+    lines = ["class %s(Generic[T]):" % name,
+             "  def __init__(self, v: T):", "    self.v = v",
+             "  def get(self) -> T:", "    return self.v",
+             "  def put(self, v: T) -> None:", "    self.v = v"]
+    k = self.some_kind(0, False)
+    o = self.fresh("o")
+    r = self.fresh("r")
+    lines += ["%s = %s(%s)" % (o, name, self.expr(env, k, 1)),
+              "%s = %s.get()" % (r, o)]
+    env[r] = k
     return lines
 
   def use_instance(self, env):
@@ -963,6 +1016,8 @@ class G:
         menu += ["call"] * 4
       if self.cfg.try_:
         menu += ["try"]
+      if self.cfg.nested:
+        menu += ["generic"]
       if self.cfg.lambdas:
         menu += ["lambda"]
       if self.cfg.functions:
@@ -985,6 +1040,8 @@ class G:
         lines = self.call_stmt(env)
       elif c == "try":
         lines = self.try_stmt(env, "")
+      elif c == "generic":
+        lines = self.generic_class_def(env)
       elif c == "lambda":
         lines = self.lambda_stmt(env)
       elif c == "dispatch":
@@ -1000,6 +1057,8 @@ class G:
     if self.needs_typing:
       header.append("from typing import %s" % ", ".join(sorted(
           self.needs_typing)))
+    if self.uses_T:
+      header.append("T = TypeVar('T')")
     return {"header": header, "stmts": stmts, "features": sorted(self.features),
             "env": {k: kind_str(v) for k, v in env.items()}}
 
